@@ -74,6 +74,19 @@ func c05RandomOp(s *Sess, b string, keys []string, rng *Rng) {
 		s.Head(b, k, pickVid())
 	case w < 91:
 		s.Head(b, k, "")
+	case w < 93:
+		// a versioning document whose status is not one of the two words S3 knows (a stem, another word, junk) is
+		// refused and changes nothing: an answer of 200 would have to mean something
+		before := do(s.h, Req{Method: "GET", Path: "/" + b + "?versioning"})
+		st := []string{"Enable", "Suspend", "On", "true", "Disabled", "Enabledx", "Enabled Suspended", "1"}[rng.Intn(8)]
+		r := do(s.h, Req{Method: "PUT", Path: "/" + b + "?versioning", Body: []byte("<VersioningConfiguration><Status>" + st + "</Status></VersioningConfiguration>")})
+		after := do(s.h, Req{Method: "GET", Path: "/" + b + "?versioning"})
+		msg := fmt.Sprintf("PUT ?versioning with <Status>%s</Status> answers %d %s; GET ?versioning before: %q, after: %q", st, r.Status, errCode(r.Body), xmlAll(string(before.Body), "Status"), xmlAll(string(after.Body), "Status"))
+		if r.Status >= 400 && r.Status < 500 && string(before.Body) == string(after.Body) {
+			emit(s.prop, "GOOD", hs(msg))
+		} else {
+			emit(s.prop, "BAD", hs("S:versioning-state-changed-by-a-document-that-names-no-state "+msg))
+		}
 	case w < 96:
 		s.SetVersioning(b, rng.Intn(3) > 0)
 	default:
